@@ -21,6 +21,14 @@ __attribute__((noinline)) int w_write_strings(int n, const char *e0, const char 
     return (int)s1.size();
 #endif
 }
+// like w_write_ints, but element i is left unset (S_INT_NULL) when bit i of `unset` is set
+__attribute__((noinline)) int w_write_ints_unset(int n, int unset, long v0, long v1, long v2, char *out1, int cap) {
+    IntAggregate a; long el[3] = { v0, v1, v2 };
+    for(int i = 0; i < n && i < 3; i++) a.AddNode(new IntNode((unset >> i) & 1 ? (SDAI_Integer)S_INT_NULL : (SDAI_Integer)el[i]));
+    std::ostringstream o; a.STEPwrite(o);
+    std::string s1 = o.str(); put(s1, out1, cap);
+    return (int)s1.size();
+}
 __attribute__((noinline)) int w_write_ints(int n, long v0, long v1, long v2, char *out1, int cap) {
     IntAggregate a; long el[3] = { v0, v1, v2 };
     for(int i = 0; i < n && i < 3; i++) a.AddNode(new IntNode(el[i]));
